@@ -128,6 +128,24 @@ pub fn replay(e: &Engine, path: &str) -> i32 {
                 Ok(())
             }
         }
+        "builtin-totality" => {
+            let ri = root_of(e, r);
+            let doc = doc_from_tagged(&r["payload"]);
+            let src = src_of(r["source"].as_str().unwrap_or("Json"));
+            let entry = &e.entries[ri];
+            let run = if r["error_type"].as_str() == Some("QueryParamError") { entry.run_query.unwrap() } else { entry.run_json.unwrap() };
+            println!("payload: {} (source {src:?})", doc.text());
+            begin(&Script::keep_going());
+            let res = std::panic::catch_unwind(|| run(src, &doc));
+            let _ = end();
+            match res {
+                Ok(x) => {
+                    println!("returned: {x:?}");
+                    Ok(())
+                }
+                Err(_) => Err("deserialize panicked".to_string()),
+            }
+        }
         "message" => {
             let ri = root_of(e, r);
             let doc = doc_from_tagged(&r["payload"]);
@@ -136,7 +154,7 @@ pub fn replay(e: &Engine, path: &str) -> i32 {
             let keep = execute(entry, Src::Json, &doc, &Script::keep_going());
             let first = keep.events.iter().find(|ev| ev.report_id().is_some());
             let run = if query { entry.run_query.unwrap() } else { entry.run_json.unwrap() };
-            let got = run(&doc);
+            let got = run(Src::Json, &doc);
             println!("payload: {}", doc.text());
             println!("first keep-going report: {first:?}");
             println!("message: {got:?}");
